@@ -18,13 +18,61 @@ class Unsupported(Exception):
     pass
 
 
+USER_EXC_PARENT = {}  # exception classes defined by the evaluated code -> the base class named in their `class` statement
+
+
+def canonical_kind(kind):
+    k = kind
+    for _ in range(8):
+        if k not in USER_EXC_PARENT:
+            break
+        k = USER_EXC_PARENT[k]
+    # a user class directly under Exception / Warning keeps its own name (that name is what distinguishes it)
+    return kind if k in ("Exception", "BaseException", "Warning", "UserWarning") else k
+
+
+class RaisedKind(str):
+    """The class named by a `raise` statement, as seen from outside the function: compares as its most specific built-in
+    ancestor ("raises ValueError" is satisfied by a subclass the evaluated code defines) and remembers the name written."""
+
+    def __new__(cls, kind):
+        self = super().__new__(cls, canonical_kind(kind))
+        self.raised_as = str(getattr(kind, "raised_as", kind))
+        return self
+
+
+class ExcType(str):
+    """The exception class handed to `__exit__(exc_type, exc, tb)`: known by name (see `exception_matches`)."""
+
+    def __new__(cls, raised_as):
+        self = super().__new__(cls, raised_as)
+        self.raised_as = str(raised_as)
+        self.__name__ = str(raised_as)
+        return self
+
+
 class ModelRaise(Exception):
     """A model operation raises (e.g. KeyError from Circuit.type on a typeless node)."""
 
     def __init__(self, kind, what=""):
         super().__init__(f"{kind}: {what}")
-        self.kind = kind
+        # `raised_as`: the class named in the raise statement; `kind`: the most specific *built-in* ancestor when the class is
+        # one the evaluated code defines itself on top of it (class NetlistError(ValueError)) - "raises ValueError" is
+        # satisfied by a subclass
+        self.raised_as = str(getattr(kind, "raised_as", kind))
+        self.kind = canonical_kind(self.raised_as)
         self.what = what
+
+
+def _plain_value(v, depth=0):
+    """True for values built only from CPython's own data types (no model object whose behaviour may differ from the real one)."""
+    if v is None or isinstance(v, (str, int, float, bool, bytes)):
+        return True
+    if isinstance(v, (list, tuple, set, frozenset)):
+        return depth < 3 and all(_plain_value(x, depth + 1) for x in list(v)[:50])
+    if isinstance(v, dict):
+        return depth < 3 and all(_plain_value(k, depth + 1) and _plain_value(x, depth + 1) for k, x in list(v.items())[:50])
+    return False
 
 
 class Model:
@@ -67,6 +115,8 @@ _SAFE_BUILTINS = {
     "NotImplemented": NotImplemented,
     "Ellipsis": Ellipsis,
     "abs": abs,
+    **{e.__name__: e for e in (Exception, BaseException, ValueError, KeyError, IndexError, TypeError, AttributeError, LookupError, ArithmeticError, ZeroDivisionError, RuntimeError, NotImplementedError,
+                               StopIteration, AssertionError, OSError, FileNotFoundError, ImportError, NameError, RecursionError, Warning, UserWarning, DeprecationWarning)},
     "bin": bin,
     "iter": iter,
     "next": None,  # handled specially
@@ -74,7 +124,7 @@ _SAFE_BUILTINS = {
 }
 
 _SAFE_METHODS = {
-    str: {"translate", "rpartition", "removeprefix", "removesuffix", "isalpha", "isalnum", "isidentifier", "splitlines", "title", "capitalize", "index", "rfind", "casefold", "center", "ljust", "rjust", "expandtabs", "encode",
+    str: {"isspace", "isupper", "islower", "swapcase", "isnumeric", "isdecimal", "format_map", "istitle", "rindex", "isascii", "translate", "rpartition", "removeprefix", "removesuffix", "isalpha", "isalnum", "isidentifier", "splitlines", "title", "capitalize", "index", "rfind", "casefold", "center", "ljust", "rjust", "expandtabs", "encode",
           "split", "startswith", "endswith", "lower", "upper", "replace", "strip", "join", "format", "rsplit", "partition", "zfill", "isdigit", "lstrip", "rstrip", "find", "count"},
     # mutators are allowed: every value here is a model value owned by the evaluator
     list: {"index", "count", "copy", "append", "insert", "pop", "extend", "remove", "reverse", "sort", "clear"},
@@ -83,6 +133,8 @@ _SAFE_METHODS = {
           "intersection_update", "clear"},
     frozenset: {"copy", "union", "intersection", "difference", "issubset", "issuperset", "isdisjoint"},
     dict: {"get", "keys", "values", "items", "copy", "pop", "update", "setdefault", "popitem", "clear", "fromkeys"},
+    __import__("collections").Counter: {"most_common", "subtract", "elements", "total"},
+    __import__("string").Template: {"substitute", "safe_substitute", "template"},
 }
 
 
@@ -135,12 +187,18 @@ class MiniEval:
                             return val
                 raise Unsupported(f"model {type(obj).__name__} has no attribute {n.attr}")
             return getattr(obj, n.attr)
+        if n.attr in getattr(type(obj), "_cg_user_methods", ()):
+            return getattr(obj, n.attr)  # a method the evaluated code defines on its own subclass of dict / list / set
         for ty, names in _SAFE_METHODS.items():
             if isinstance(obj, ty) and n.attr in names:
                 return getattr(obj, n.attr)
+        if type(obj).__name__ == "Token" and isinstance(obj, str) and n.attr in ("update", "type", "value", "line", "column", "end_line", "end_column", "start_pos", "end_pos"):
+            return getattr(obj, n.attr)  # a lark Token (a str with position attributes)
+        if callable(obj) and n.attr in ("register", "dispatch", "cache_clear", "cache_info", "__wrapped__", "__name__", "__doc__", "func", "args", "keywords") and hasattr(obj, n.attr):
+            return getattr(obj, n.attr)  # attributes of function objects: singledispatch registry, lru_cache controls, partial parts
         if obj is None:
             raise ModelRaise("AttributeError", f"'NoneType' object has no attribute '{n.attr}'")
-        if isinstance(obj, (dict, list, tuple, str)) and n.attr in ("__getitem__", "__contains__", "__len__"):
+        if isinstance(obj, (dict, list, tuple, str, set, frozenset)) and n.attr in ("__getitem__", "__contains__", "__len__", "__eq__", "__ne__", "__iter__", "__le__", "__lt__", "__ge__", "__gt__", "__or__", "__and__", "__sub__") and hasattr(obj, n.attr):
             return getattr(obj, n.attr)
         if obj in (dict, set, frozenset, str, list, tuple, int) and n.attr in ("fromkeys", "union", "intersection", "join", "maketrans", "from_bytes", "difference") and hasattr(obj, n.attr):
             return getattr(obj, n.attr)
@@ -150,10 +208,24 @@ class MiniEval:
         raise Unsupported(f"attribute {n.attr} on {type(obj).__name__}")
 
     def ev_Call(self, n):
+        if isinstance(n.func, ast.Name) and n.func.id in ("isinstance", "issubclass") and n.func.id not in self.env and len(n.args) == 2:
+            # exceptions are modelled by the name of their class: isinstance(<caught exception>, ValueError), and
+            # issubclass(<exc_type handed to __exit__>, ValueError)
+            first = self.ev(n.args[0])
+            kind = first.raised_as if isinstance(first, ModelRaise) and n.func.id == "isinstance" else first.raised_as if isinstance(first, ExcType) and n.func.id == "issubclass" else None
+            if kind is not None:
+                targs = n.args[1].elts if isinstance(n.args[1], ast.Tuple) else [n.args[1]]
+                return any(exception_matches(kind, norm(t).split(".")[-1]) for t in targs)
+            if n.func.id == "issubclass":
+                raise Unsupported(f"issubclass on {type(first).__name__}")
         if isinstance(n.func, ast.Name) and n.func.id == "isinstance" and len(n.args) == 2:
+            import collections.abc as _abc
+
             obj = self.ev(n.args[0])
             table = {"str": str, "list": list, "set": set, "dict": dict, "tuple": tuple, "int": int, "bool": bool, "float": float, "frozenset": frozenset, "bytes": bytes,
-                     "Iterable": (list, tuple, set, frozenset, dict), "Sequence": (list, tuple), "Mapping": dict, "type(None)": type(None)}
+                     "Iterable": _abc.Iterable, "Sequence": _abc.Sequence, "Mapping": _abc.Mapping, "Hashable": _abc.Hashable, "Collection": _abc.Collection, "MutableMapping": _abc.MutableMapping,
+                     "MutableSequence": _abc.MutableSequence, "Set": _abc.Set, "AbstractSet": _abc.Set, "MutableSet": _abc.MutableSet, "Iterator": _abc.Iterator, "Callable": _abc.Callable, "Sized": _abc.Sized,
+                     "Container": _abc.Container, "type(None)": type(None)}
             targs = n.args[1].elts if isinstance(n.args[1], ast.Tuple) else [n.args[1]]
             types = []
             for t in targs:
@@ -286,6 +358,10 @@ class MiniEval:
                 else:
                     raise Unsupported(norm(n))
             except TypeError as e:
+                if _plain_value(left) and _plain_value(right):
+                    # CPython's own answer for these operands (an unhashable value looked up in a set, an order comparison of
+                    # unrelated kinds): the code under analysis raises it too
+                    raise ModelRaise("TypeError", f"{norm(n)}: {e}")
                 raise Unsupported(f"compare {norm(n)}: {e}")
             if not ok:
                 return False
@@ -574,10 +650,10 @@ def exception_matches(kind, handler_name):
     """Does `except <handler_name>` catch an exception of class name `kind`?  (built-in and networkx hierarchy; a class the
     evaluated code defines itself is an `Exception` subclass whose own ancestors are not tracked)"""
     k = kind
-    for _ in range(8):
+    for _ in range(12):
         if k == handler_name:
             return True
-        k = _EXC_PARENTS.get(k, "Exception" if k not in ("BaseException",) else None)
+        k = USER_EXC_PARENT.get(k) or _EXC_PARENTS.get(k, "Exception" if k not in ("BaseException",) else None)
         if k is None:
             return False
     return handler_name in ("Exception", "BaseException")
@@ -612,6 +688,7 @@ class LazyGen:
         self._closing = False
         self._exc = None
         self._value = None
+        self._thrown = None
 
     def __iter__(self):
         return self
@@ -633,6 +710,24 @@ class LazyGen:
         self._to_gen.acquire()
         if self._closing:
             raise _GenClose()
+        if self._thrown is not None:
+            e, self._thrown = self._thrown, None
+            raise e  # generator.throw(): the exception appears at the suspended `yield`
+
+    def throw(self, exc):
+        """generator.throw(exc): resume the body with `exc` raised at the `yield` it is suspended in."""
+        if self._thread is None or self._finished:
+            self._finished = True
+            raise exc
+        self._thrown = exc
+        self._to_gen.release()
+        self._to_caller.acquire()
+        if self._exc is not None:
+            e, self._exc = self._exc, None
+            raise e
+        if self._finished:
+            raise StopIteration
+        return self._value
 
     def __next__(self):
         import threading
@@ -765,7 +860,18 @@ class BlockInterp:
                 raise ModelRaise(r[1] or "Exception", "raised in nested function")
             return None
 
+        closure._cg_fdef = fdef
+        closure._cg_interp = outer
         return closure
+
+    def _run_guarded(self, tr):
+        """The body of a try statement; when the enclosing generator is closed while suspended in it, `finally` still runs."""
+        try:
+            return self.run(tr.body)
+        except _GenClose:
+            if tr.finalbody:
+                self.run(tr.finalbody)
+            raise
 
     def _match(self, pat, value):
         """Structural pattern matching (PEP 634) for the pattern kinds library code uses; captures are bound in the current scope."""
@@ -830,7 +936,7 @@ class BlockInterp:
                 raise Unsupported(f"class pattern {cname}")
             if not is_instance_of(value, cls):
                 return False
-            margs = cls.lookup("__match_args__")
+            margs = cls._uc_lookup("__match_args__")
             if not isinstance(margs, (tuple, list)):
                 margs = tuple(f[0] for f in cls._uc_fields)
             if len(pat.patterns) > len(margs):
@@ -963,7 +1069,19 @@ class BlockInterp:
                 elif al.name in table:
                     v = table[al.name]
                 else:
-                    raise Unsupported(f"import of {key}")
+                    from .pkgenv import NS, stdlib_table
+
+                    tab = stdlib_table()
+                    if isinstance(st, ast.ImportFrom) and st.module in tab and al.name in tab[st.module]:
+                        v = tab[st.module][al.name]
+                    elif isinstance(st, ast.Import) and al.name in tab:
+                        v = NS(**tab[al.name])
+                    elif isinstance(st, ast.ImportFrom) and st.module in ("typing", "__future__", "abc", "numbers"):
+                        v = object
+                    elif isinstance(st, ast.ImportFrom) and (st.module or "").startswith("circuitgraph") and nm in self.me.env:
+                        v = self.me.env[nm]
+                    else:
+                        raise Unsupported(f"import of {key}")
                 if isinstance(v, ModelRaise):
                     raise v
                 self.me.env[nm] = v
@@ -972,7 +1090,7 @@ class BlockInterp:
             exc = None
             r = "next"
             try:
-                r = self.run(st.body)
+                r = self._run_guarded(st)
                 if isinstance(r, tuple) and r[0] == "raise":
                     # an explicit `raise` statement inside the try body is caught by this statement's handlers too
                     exc = ModelRaise(r[1] or "Exception", "raised by a raise statement")
@@ -987,7 +1105,7 @@ class BlockInterp:
                         names = [norm(x).split(".")[-1] for x in h.type.elts]
                     else:
                         names = [norm(h.type).split(".")[-1]]
-                    if names is None or any(exception_matches(exc.kind, nm) for nm in names):
+                    if names is None or any(exception_matches(exc.raised_as, nm) for nm in names):
                         if h.name:
                             self.me.env[h.name] = exc
                         stack = self.__dict__.setdefault("_exc_stack", [])
@@ -1019,12 +1137,26 @@ class BlockInterp:
                     return r2
             return r
         if isinstance(st, ast.With):
+            cms = []
             for item in st.items:
                 cm = self.me.ev(item.context_expr)
                 val = cm.__enter__() if hasattr(cm, "__enter__") else cm
+                cms.append(cm)
                 if item.optional_vars is not None:
                     self.me._bind(item.optional_vars, val)
-            return self.run(st.body)
+            try:
+                r = self.run(st.body)
+                exc = ModelRaise(r[1] or "Exception", "raised by a raise statement") if isinstance(r, tuple) and r[0] == "raise" else None
+            except ModelRaise as e:
+                r, exc = "next", e
+            for cm in reversed(cms):
+                if hasattr(cm, "__exit__"):
+                    suppressed = cm.__exit__(ExcType(exc.raised_as), exc, None) if exc is not None else cm.__exit__(None, None, None)
+                    if exc is not None and suppressed:
+                        exc, r = None, "next"
+            if exc is not None:
+                raise exc
+            return r
         if isinstance(st, ast.Continue):
             return "continue"
         if isinstance(st, ast.Break):
@@ -1040,9 +1172,27 @@ class BlockInterp:
             if st.exc is not None:
                 e = st.exc.func if isinstance(st.exc, ast.Call) else st.exc
                 kind = norm(e).split(".")[-1]
+                if not (kind in _EXC_PARENTS or kind in USER_EXC_PARENT or kind[:1].isupper()):
+                    # not the name of an exception class: an expression that yields the exception (a factory classmethod,
+                    # a variable holding an instance)
+                    from .userclass import UserClass, UserInstance
+
+                    v = self.me.ev(st.exc)
+                    if isinstance(v, ModelRaise):
+                        raise v
+                    if isinstance(v, UserInstance):
+                        kind = v._uc_class._uc_name
+                    elif isinstance(v, UserClass):
+                        kind = v._uc_name
+                    elif isinstance(v, BaseException):
+                        kind = type(v).__name__
+                    elif isinstance(v, type) and issubclass(v, BaseException):
+                        kind = v.__name__
+                    else:
+                        raise Unsupported(f"raise of {norm(st.exc)[:60]}")
             if self.on_raise:
                 self.on_raise(st, kind)
-            return ("raise", kind)
+            return ("raise", RaisedKind(kind) if kind is not None else None)
         if isinstance(st, ast.For):
             src = self.me.ev(st.iter)
             # iterate lazily (itertools.count() ...) but over a snapshot of sized containers (mutation during iteration
